@@ -382,7 +382,7 @@ def run(ctx: core.Ctx, only=None) -> core.Result:
     for case in cases:
         if 'deep' in case:
             with core.guarded(res, 'scenario-raised', case):
-                run_deep_case(ctx, res, case['width'], case['off'])
+                run_deep_case(ctx, res, case['width'], case.get('off', case.get('offset_in_widths', 0.0)))
             continue
         if 'native' in case:
             with core.guarded(res, 'scenario-raised', case):
